@@ -9,13 +9,17 @@ package harness
 // and never park. All scheduling freedom sits in the per-watch pump tasks.
 
 import (
+	"context"
 	"encoding/json"
 	"fmt"
+	"k8s.io/client-go/dynamic"
+	"reflect"
 	"sort"
 	"strconv"
 	"strings"
 	"sync"
 	"time"
+	"unsafe"
 
 	jsonpatch "github.com/evanphx/json-patch"
 	corev1 "k8s.io/api/core/v1"
@@ -114,10 +118,10 @@ type APIServer struct {
 	nwatch  map[string]int
 	Lists   []listRecord
 	// fault knobs (consumed by reactors)
-	FailList        map[string]int  // resource -> remaining list failures
-	FailWrite       map[string]int  // verb -> remaining write failures
-	FailWriteName   map[string]int  // object name -> remaining failures of writes to an object of that name
-	FaultedNames    map[string]int  // object name -> write failures that fired
+	FailList        map[string]int // resource -> remaining list failures
+	FailWrite       map[string]int // verb -> remaining write failures
+	FailWriteName   map[string]int // object name -> remaining failures of writes to an object of that name
+	FaultedNames    map[string]int // object name -> write failures that fired
 	SlowList        map[string]int // resource -> remaining lists that take SlowListDur of simulated time to answer
 	SlowListDur     time.Duration
 	ConflictUpdates int             // remaining updates answered 409 Conflict (a concurrent writer got in between Get and Update)
@@ -342,17 +346,6 @@ func (a *APIServer) react(action ktesting.Action) (bool, runtime.Object, error) 
 	switch act := action.(type) {
 	case ktesting.ListActionImpl:
 		a.mu.Lock()
-		if a.SlowList[gvr.Resource] > 0 {
-			// an API server that answers this list slowly: the caller waits in simulated time (no lock of the
-			// model is held meanwhile)
-			a.SlowList[gvr.Resource]--
-			d := a.SlowListDur
-			a.mu.Unlock()
-			simrt.Count("fault:slow-list")
-			simrt.Logf("api FAULT list %s takes %v", gvr.Resource, d)
-			simrt.Sleep(d)
-			a.mu.Lock()
-		}
 		defer a.mu.Unlock()
 		if a.FailList[gvr.Resource] > 0 {
 			a.FailList[gvr.Resource]--
@@ -688,3 +681,74 @@ func rvOf(o *unstructured.Unstructured) uint64 {
 }
 
 var _ = metav1.ListOptions{}
+
+// ---------------------------------------------------------------- slow answers (transport seam in front of the fake client)
+//
+// A reactor must not wait (client-go's Fake holds its lock while reactors run), so slowness is injected one
+// layer up: the operator's dynamic client is wrapped, and a list that is to be slow waits in simulated time
+// before it is passed on.
+
+type slowDynamic struct {
+	dynamic.Interface
+	api *APIServer
+}
+
+func (s slowDynamic) Resource(r schema.GroupVersionResource) dynamic.NamespaceableResourceInterface {
+	return slowResource{s.Interface.Resource(r), r, s.api}
+}
+
+type slowResource struct {
+	dynamic.NamespaceableResourceInterface
+	gvr schema.GroupVersionResource
+	api *APIServer
+}
+
+func (s slowResource) Namespace(ns string) dynamic.ResourceInterface {
+	return slowNsResource{s.NamespaceableResourceInterface.Namespace(ns), s.gvr, s.api}
+}
+
+func (s slowResource) List(ctx context.Context, opts metav1.ListOptions) (*unstructured.UnstructuredList, error) {
+	s.api.maybeSlowList(s.gvr)
+	return s.NamespaceableResourceInterface.List(ctx, opts)
+}
+
+type slowNsResource struct {
+	dynamic.ResourceInterface
+	gvr schema.GroupVersionResource
+	api *APIServer
+}
+
+func (s slowNsResource) List(ctx context.Context, opts metav1.ListOptions) (*unstructured.UnstructuredList, error) {
+	s.api.maybeSlowList(s.gvr)
+	return s.ResourceInterface.List(ctx, opts)
+}
+
+func (a *APIServer) maybeSlowList(gvr schema.GroupVersionResource) {
+	if !simrt.IsTask() {
+		// lists of client-go's own goroutines (reflectors) are not slowed: a goroutine outside the scheduler
+		// that wakes from a timer runs concurrently with the task the scheduler resumes (found by the
+		// determinism self-test); the operator's own lists (loadExistedObjects) are made by tasks
+		return
+	}
+	a.mu.Lock()
+	slow := a.SlowList[gvr.Resource] > 0
+	d := a.SlowListDur
+	if slow {
+		a.SlowList[gvr.Resource]--
+	}
+	a.mu.Unlock()
+	if slow {
+		simrt.Count("fault:slow-list")
+		simrt.Logf("api FAULT list %s takes %v", gvr.Resource, d)
+		simrt.Sleep(d)
+	}
+}
+
+// WrapDynamic puts the slow-answer layer in front of the client's dynamic interface (unexported field of
+// kube-client's Client, set through reflection: the simulator owns the transport).
+func (a *APIServer) WrapDynamic(c any) {
+	v := reflect.ValueOf(c).Elem().FieldByName("dynamicClient")
+	v = reflect.NewAt(v.Type(), unsafe.Pointer(v.UnsafeAddr())).Elem()
+	inner := v.Interface().(dynamic.Interface)
+	v.Set(reflect.ValueOf(slowDynamic{inner, a}))
+}
